@@ -133,6 +133,10 @@ static unsigned sim_ntx;
 static void (*sim_tx_hook)(const sim_dgram_t *d);     /* fate of a captured datagram */
 static void (*sim_tx_logger)(const sim_dgram_t *d);   /* replaces the default tx token */
 static int sim_send_result_override;                  /* != 0: coap_socket_send returns this (e.g. -1) and nothing is captured */
+/* optional: asked before every write; non-zero = this write fails: coap_socket_send() returns -1 with errno = ECONNREFUSED
+ * (what a connected UDP socket does after an ICMP port-unreachable; ENOBUFS / EPERM look the same to libcoap) and nothing
+ * is captured.  The hook may log the attempt. */
+static int (*sim_tx_fail_hook)(coap_session_t *session, const uint8_t *data, size_t datalen);
 
 static void sim_decode(sim_dgram_t *d) {
   const uint8_t *b = d->data;
@@ -174,6 +178,7 @@ static void sim_tok(char *out, const uint8_t *t, size_t n) {
 ssize_t __wrap_coap_socket_send(coap_socket_t *sock, coap_session_t *session, const uint8_t *data, size_t datalen) {
   sim_dgram_t *d;
   if (sim_send_result_override) return sim_send_result_override;
+  if (sim_tx_fail_hook && sim_tx_fail_hook(session, data, datalen)) { errno = ECONNREFUSED; return -1; }
   if (sim_ntx >= SIM_MAX_TX) return (ssize_t)datalen;
   d = &sim_tx[sim_ntx];
   memset(d, 0, sizeof(*d));
@@ -370,6 +375,7 @@ static void sim_reset(void) {
   sim_prng_n = sim_prng_pos = 0; sim_prng_fill = 0;
   sim_rx.have = 0; sim_rx.icmp = 0; sim_rx.have_dst = 0;
   sim_send_result_override = 0;
+  sim_tx_fail_hook = NULL;
   sim_response_verdict = COAP_RESPONSE_OK;
 }
 
